@@ -15,7 +15,7 @@
    gd_frames below), the bytes in between (model/Wire.v, tied by the correspondence check). *)
 From Coq Require Import Lia ZifyBool.
 From PJ.Model Require Import Base Terms Encoder Streams Decoder Spec Api.
-From PJ.Proofs Require Import DecoderProofs EncStream RoundTrip EncNamespace EncNamespace2 EncGraphs WireRT SpecWf BytesE2E.
+From PJ.Proofs Require Import DecoderProofs DecoderSound EncStream RoundTrip EncNamespace EncNamespace2 EncGraphs WireRT SpecWf BytesE2E.
 From PJ.Tie Require Import PyPrims StrN OptionsTie EncodeTie EncodeStmtTie FlowsTie DecodeTie DecoderBase DecoderTie GenericTerms GenericParseTie GenericSerializeTie.
 From PJ.Gen Require Import LookupDecGen OptionsGen DecodeGen GenericSinkGen GenericParseGen.
 Local Open Scope Z_scope.
@@ -195,8 +195,49 @@ Proof.
   intros Hty. exact (source_round_trip _ _ _ po ak st0 (graphs_stream_valid_ns o s s' d evs Hnew Hcfg Hfresh Hwf Hrun Hraise) H4 H5 Hty).
 Qed.
 
+(* C04 for the generic integration, translated reader: ANY stream the referee (model/Spec.v: my reading of rdf.proto) accepts,
+   whoever produced it, given as the message objects with exactly its fields set, is read by the translated Decoder over the
+   translated adapters to exactly the objects of the events the referee says it denotes -- statements and namespace
+   declarations, in order -- and no exception *)
+Theorem C04_source_generic_reads_valid_streams :
+  forall (fs : list frame) (evs : list event) (dl : bool),
+    run_frames fs = Valid evs ->
+    exists po ak st0 sk first more,
+      skip_empty fs = (sk, first :: more) /\ Decoder.options_from_frame first dl = Ok po /\
+      route (po_phys po) = Ok ak /\ decoder_new po = Ok st0 /\
+      (types_named (ParserOptions_stream_types (popts_obj po)) ->
+       exists a gd, adapter_ctor ak (popts_obj po) = Val a /\ Decoder___init__ SN Adapter_options a = Val gd /\
+         g_flat (gd_frames (map (frame_msg (rmsg gput)) fs) gd) = (map (fun e => Some (obj_of_event e)) evs, true)).
+Proof.
+  intros fs evs dl Hv.
+  destruct (DecoderSound.decoder_sound_frames fs evs dl Hv) as (po & ak & st0 & sk & first & more & H1 & H2 & H3 & H4 & H5).
+  exists po, ak, st0, sk, first, more. repeat (split; [assumption|]).
+  intros Hty. exact (source_round_trip fs evs evs po ak st0 Hv H4 H5 Hty).
+Qed.
+
+(* C14 for the generic integration: with declarations enabled, the translated reader on the frames of a TripleStream yields
+   the Prefix objects of the bindings, in binding order, and then exactly the statements (ns_events is [] when the option is
+   off: the statements do not depend on it) *)
+Theorem C14_source_generic_triples :
+  forall (o : soptions) (s s' : stream) (d : sdata) (evs : list tev) (dl : bool),
+    stream_new TripleStream Generic o = Ok s -> cfg_ok o (st_logical s) -> fl_rows (st_flow s) = [] ->
+    triples_stream_frames d s = (s', evs) -> raised evs = None ->
+    exists po ak st0 sk first more,
+      skip_empty (emitted evs) = (sk, first :: more) /\ Decoder.options_from_frame first dl = Ok po /\
+      route (po_phys po) = Ok ak /\ decoder_new po = Ok st0 /\
+      (types_named (ParserOptions_stream_types (popts_obj po)) ->
+       exists a gd, adapter_ctor ak (popts_obj po) = Val a /\ Decoder___init__ SN Adapter_options a = Val gd /\
+         g_flat (gd_frames (map (frame_msg (rmsg gput)) (emitted evs)) gd) =
+         (map (fun e => Some (obj_of_event e)) (ns_events o d ++ flat_map event_of_triple (d_stmts d)), true)).
+Proof.
+  intros o s s' d evs dl Hnew Hcfg Hfresh Hrun Hraise.
+  exact (C04_source_generic_reads_valid_streams (emitted evs) _ dl (triples_stream_valid_ns o s s' d evs Hnew Hcfg Hfresh Hrun Hraise)).
+Qed.
+
 Print Assumptions grmsg_owner.
 Print Assumptions generic_reads_written_frames.
 Print Assumptions C01_source_generic_triples.
 Print Assumptions C01_source_generic_quads.
 Print Assumptions C01_source_generic_graphs.
+Print Assumptions C04_source_generic_reads_valid_streams.
+Print Assumptions C14_source_generic_triples.
